@@ -2,6 +2,7 @@ package prog
 
 import (
 	"fmt"
+	"math/big"
 	"os"
 	"path/filepath"
 	"sort"
@@ -497,6 +498,10 @@ type MovieOptions struct {
 	Adversarial int  // probability in percent of the adversarial flavour (default 35)
 	NoShuffle   bool // keep chunk offsets of every track increasing
 	Huge        bool // co64 in every track and a 64-bit mdat header (File.StretchedPieces applies)
+	// CarryProbe: track 1 is a video track with a time scale c near 2^32 that has a sync sample at decode time
+	// T = ceil((k*2^64-(c-1))/t), k in 1..3, all other tracks are audio with time scale t < c-1: T*t falls in the last c-1
+	// values below 2^64, where rounding the conversion T*t/c up carries out of the low 64-bit word.
+	CarryProbe bool
 }
 
 // RandomMovie generates a multi-track movie whose tracks cover about the same
@@ -533,6 +538,30 @@ func RandomMovie(r *runner.Rand, o MovieOptions) *File {
 	}
 	adversarial := r.Intn(100) < o.Adversarial
 	durMS := r.Range(200, 3000)
+	var carryC, carryT, carryAt uint64
+	if o.CarryProbe {
+		adversarial = false
+		pair := [][2]uint64{{4000000000, 3000000000}, {4000000000, 1 << 31}, {3000000000, 1 << 31}, {1<<32 - 1, 4000000000}, {1<<32 - 1, 3000000000}}[r.Intn(5)]
+		carryC, carryT = pair[0], pair[1]
+		// T = ceil((k*2^64-(c-1))/t) for k = 1..3 (the k-th wrap of the low word)
+		num := new(big.Int).Lsh(big.NewInt(int64(r.Range(1, 3))), 64)
+		num.Sub(num, new(big.Int).SetUint64(carryC-1))
+		q, m := new(big.Int).DivMod(num, new(big.Int).SetUint64(carryT), new(big.Int))
+		carryAt = q.Uint64()
+		if m.Sign() != 0 {
+			carryAt++
+		}
+		if len(kinds) < 2 {
+			kinds = append(kinds, "audio")
+		}
+		kinds[0] = "video"
+		for i := 1; i < len(kinds); i++ {
+			kinds[i] = "audio"
+		}
+		if need := int(carryAt*1000/carryC) + 400; durMS < need {
+			durMS = need
+		}
+	}
 	label := fmt.Sprintf("D=%dms", durMS)
 	if adversarial {
 		label += " adversarial"
@@ -583,6 +612,32 @@ func RandomMovie(r *runner.Rand, o MovieOptions) *File {
 					durs[r.Intn(n)] = d + int64(r.Range(1, int(d)))
 				}
 			}
+			if o.CarryProbe && ti == 0 {
+				t.Timescale = uint32(carryC)
+				d = int64(carryC) / int64(fps)
+				// samples 1..k span exactly carryAt ticks (each below 2^32), then regular frames
+				durs = durs[:0]
+				left := int64(carryAt)
+				for left > 0 {
+					v := int64(1<<32 - 1 - r.Intn(1000))
+					if v > left {
+						v = left
+					}
+					durs = append(durs, v)
+					left -= v
+				}
+				carryAt = uint64(len(durs)) // from here on: index of the sample that starts at T
+				for i := 0; i < 6; i++ {
+					durs = append(durs, d)
+				}
+			}
+		case o.CarryProbe:
+			t.Timescale = uint32(carryT)
+			total := int64(durMS) * int64(t.Timescale) / 1000
+			nn := r.Range(20, o.MaxSamples)
+			for i := 0; i < nn; i++ {
+				durs = append(durs, total/int64(nn))
+			}
 		default:
 			t.Timescale = uint32(r.PickInt(48000, 44100, 22050, 24000, 32000, 16000))
 			d := int64(r.PickInt(1024, 1024, 2048, 960))
@@ -615,6 +670,12 @@ func RandomMovie(r *runner.Rand, o MovieOptions) *File {
 					syncs[i] = i == 0 || r.Chance(1, 4)
 				}
 			}
+			if o.CarryProbe && ti == 0 {
+				t.HasStss = true
+				for i := range syncs {
+					syncs[i] = i == 0 || i == int(carryAt)
+				}
+			}
 			if r.Chance(3, 5) {
 				t.HasCtts = true
 				t.CttsVersion = byte(r.Intn(2))
@@ -637,6 +698,9 @@ func RandomMovie(r *runner.Rand, o MovieOptions) *File {
 		unit := durs[0]
 		if unit == 0 {
 			unit = 1
+		}
+		if o.CarryProbe && unit > 1<<20 {
+			unit = 1000 // composition offsets stay small next to the 2^32-sized leading durations
 		}
 		maxSize := 48
 		if kind == "video" {
